@@ -14,6 +14,8 @@ FlatBlock(b) ==
   IF b.kind = "comment" THEN <<>>
   ELSE IF b.kind = "feature"
        THEN LET rules == SelectSeq(b.body, LAMBDA x : x.k = "rule") IN [k \in 1..Len(rules) |-> <<b.tag, rules[k].t>>]
+       ELSE IF b.kind = "table"
+       THEN [k \in 1..Len(b.body) |-> <<"table " \o b.tag, b.body[k].t>>]
        ELSE << <<"", b.kind \o ":" \o b.t>> >>
 Flat(file) == FlattenSeq([k \in 1..Len(file) |-> FlatBlock(file[k])])
 
@@ -52,4 +54,19 @@ TagOK(user, out, T) ==
           /\ SubSeq(o, 1, p) = SubSeq(u, 1, p)
           /\ SubSeq(o, Len(o) - (Len(u) - p) + 1, Len(o)) = SubSeq(u, p + 1, Len(u))
           /\ \A k \in (p + 1)..(Len(o) - (Len(u) - p)) : o[k] \notin userSet
+
+\* table blocks (GDEF): [kind = "table", tag, body = << [k = "rule", t, c = statement class] >>]
+TableStmts(file, tag, classes) ==
+  FlattenSeq([k \in 1..Len(file) |->
+     IF file[k].kind = "table" /\ file[k].tag = tag
+     THEN LET b == SelectSeq(file[k].body, LAMBDA x : x.c \in classes) IN [j \in 1..Len(b) |-> b[j].t]
+     ELSE <<>>])
+CaretClasses == {"LigatureCaretByIndexStatement", "LigatureCaretByPosStatement"}
+\* the parts of GDEF the user wrote are left alone: glyph classes are not redefined, and hand-written ligature carets
+\* (by position or by contour point) get no generated companions
+GdefOK(user, out) ==
+  /\ TableStmts(user, "GDEF", {"GlyphClassDefStatement"}) # <<>> =>
+        TableStmts(out, "GDEF", {"GlyphClassDefStatement"}) = TableStmts(user, "GDEF", {"GlyphClassDefStatement"})
+  /\ TableStmts(user, "GDEF", CaretClasses) # <<>> =>
+        TableStmts(out, "GDEF", CaretClasses) = TableStmts(user, "GDEF", CaretClasses)
 =============================================================================
